@@ -28,6 +28,8 @@ class CoreGen:
         self.while_stack = []        # (counter, bound) of the enclosing while loops, innermost last
 
     def fresh(self, p):
+        if not hasattr(self, "rec_methods"):
+            self.rec_methods = self.rng.random() < 0.7
         self.n += 1
         return f"{p}{self.n}"
 
@@ -41,6 +43,14 @@ class CoreGen:
             return ("var", self.pick(ints))
         recs = [n for n, t in env.items() if t == REC]
         if recs and r < 0.68:
+            if self.rec_methods and self.rng.random() < 0.6:
+                # classes with a static field, an instance field with an initialiser declared after it, a method and a
+                # method that passes the object itself to a function
+                self.features.add("rec-methods")
+                q = self.rng.random()
+                if q < 0.3:
+                    return ("field", self.pick(recs), "fc")
+                return ("mcall", self.pick(recs), "total" if q < 0.65 else "selfarea")
             self.features.add("field-read")
             return ("field", self.pick(recs), self.pick(FIELDS))
         arrs = [n for n, t in env.items() if t == ARR]
@@ -139,6 +149,9 @@ class CoreGen:
             self.features.add("array")
             return ("newarr", v, es)
         recs = [n for n, t in env.items() if t == REC]
+        if recs and self.rec_methods and self.rng.random() < 0.3:
+            self.features.add("rec-methods")
+            return ("out", ("mcall", self.pick(recs), self.pick(["total", "selfarea"])))
         if r < 0.54 and recs:
             q = self.rng.random()
             if q < 0.2:
@@ -232,7 +245,12 @@ class CoreGen:
             if t == INT and not n.startswith("k") or t == STR:
                 main.append(("out", ("var", n)))
             elif t == REC:
-                for f in FIELDS:
+                if self.rec_methods:
+                    # every program with a record exercises both methods at least once, on a path that always executes
+                    self.features.add("rec-methods")
+                    main.append(("out", ("mcall", n, "total")))
+                    main.append(("out", ("mcall", n, "selfarea")))
+                for f in FIELDS + (("fc",) if "rec-methods" in self.features else ()):
                     main.append(("out", ("field", n, f)))
             elif t == ARR:
                 for i in range(ARR_LEN):
@@ -297,6 +315,9 @@ def interpret(prog, budget=100000):
             return (a and b) if e[1] == "and" else (a or b)
         if k == "field":
             return env[e[1]][e[2]]
+        if k == "mcall":
+            o = env[e[1]]
+            return o[FIELDS[0]] + o[FIELDS[1]] + o["fc"] if e[2] == "total" else o[FIELDS[0]] * 2
         if k == "elem":
             return env[e[1]][e[2]]
         if k == "call":
@@ -334,7 +355,7 @@ def interpret(prog, budget=100000):
                 if abs(env[s[1]][s[2]]) > 2 ** 30:
                     raise Budget()
             elif k == "newrec":
-                env[s[1]] = {FIELDS[0]: ev(s[2], env), FIELDS[1]: ev(s[3], env)}
+                env[s[1]] = {FIELDS[0]: ev(s[2], env), FIELDS[1]: ev(s[3], env), "fc": 5}
             elif k == "newarr":
                 env[s[1]] = [ev(x, env) for x in s[2]]
             elif k == "setfield":
@@ -429,6 +450,8 @@ class Renderer:
             return f"({self.expr(e[2])} {self.AND if e[1] == 'and' else self.OR} {self.expr(e[3])})"
         if k == "field":
             return self.field(e[1], e[2])
+        if k == "mcall":
+            return f"{self.field(e[1], e[2])}()"
         if k == "elem":
             return f"{self.v(e[1])}[{e[2]}]"
         if k == "call":
@@ -532,8 +555,16 @@ class JsR(Renderer):
     def header(self, prog):
         if prog.uses_rec:
             self.emit(0, "class Rec {")
+            if "rec-methods" in prog.features:
+                self.emit(1, "static made = 0;")
+                self.emit(1, "fc = 5;")
             self.emit(1, f"constructor(a, b) {{ this.{FIELDS[0]} = a; this.{FIELDS[1]} = b; }}")
+            if "rec-methods" in prog.features:
+                self.emit(1, f"total() {{ return ((this.{FIELDS[0]} + this.{FIELDS[1]}) + this.fc); }}")
+                self.emit(1, "selfarea() { return area(this); }")
             self.emit(0, "}")
+            if "rec-methods" in prog.features:
+                self.emit(0, f"function area(r) {{ return (r.{FIELDS[0]} * 2); }}")
 
     def func(self, name, params, body):
         self.emit(0, f"function {name}({', '.join(params)}) {{")
@@ -568,8 +599,16 @@ class TsR(JsR):
             self.emit(0, "class Rec {")
             self.emit(1, f"{FIELDS[0]}: number;")
             self.emit(1, f"{FIELDS[1]}: number;")
+            if "rec-methods" in prog.features:
+                self.emit(1, "static made: number = 0;")
+                self.emit(1, "fc: number = 5;")
             self.emit(1, f"constructor(a: number, b: number) {{ this.{FIELDS[0]} = a; this.{FIELDS[1]} = b; }}")
+            if "rec-methods" in prog.features:
+                self.emit(1, f"total(): number {{ return ((this.{FIELDS[0]} + this.{FIELDS[1]}) + this.fc); }}")
+                self.emit(1, "selfarea(): number { return area(this); }")
             self.emit(0, "}")
+            if "rec-methods" in prog.features:
+                self.emit(0, f"function area(r: Rec): number {{ return (r.{FIELDS[0]} * 2); }}")
 
     def func(self, name, params, body):
         self.emit(0, f"function {name}({', '.join(p + ': number' for p in params)}): number {{")
@@ -630,6 +669,14 @@ class PyR(Renderer):
             self.emit(1, "def __init__(self, a, b):")
             self.emit(2, f"self.{FIELDS[0]} = a")
             self.emit(2, f"self.{FIELDS[1]} = b")
+            if "rec-methods" in prog.features:
+                self.emit(2, "self.fc = 5")
+                self.emit(1, "def total(self):")
+                self.emit(2, f"return ((self.{FIELDS[0]} + self.{FIELDS[1]}) + self.fc)")
+                self.emit(1, "def selfarea(self):")
+                self.emit(2, "return area(self)")
+                self.emit(0, "def area(r):")
+                self.emit(1, f"return (r.{FIELDS[0]} * 2)")
         for name, params, body in prog.funcs:
             self.types = {p: INT for p in params}
             self.emit(0, f"def {name}({', '.join(params)}):")
@@ -669,9 +716,17 @@ class JavaR(Renderer):
             self.emit(0, f"class Rec{self.ident} {{")
             self.emit(1, f"int {FIELDS[0]};")
             self.emit(1, f"int {FIELDS[1]};")
+            if "rec-methods" in prog.features:
+                self.emit(1, "static int made = 0;")
+                self.emit(1, "int fc = 5;")
             self.emit(1, f"Rec{self.ident}(int a, int b) {{ this.{FIELDS[0]} = a; this.{FIELDS[1]} = b; }}")
+            if "rec-methods" in prog.features:
+                self.emit(1, f"int total() {{ return ((this.{FIELDS[0]} + this.{FIELDS[1]}) + this.fc); }}")
+                self.emit(1, f"int selfarea() {{ return Main{self.ident}.area(this); }}")
             self.emit(0, "}")
         self.emit(0, f"public class Main{self.ident} {{")
+        if prog.uses_rec and "rec-methods" in prog.features:
+            self.emit(1, f"static int area(Rec{self.ident} r) {{ return (r.{FIELDS[0]} * 2); }}")
         for name, params, body in prog.funcs:
             self.types = {p: INT for p in params}
             self.emit(1, f"static int {name}({', '.join('int ' + p for p in params)}) {{")
@@ -833,8 +888,20 @@ class PhpR(Renderer):
             self.emit(0, "class Rec {")
             self.emit(1, f"public ${FIELDS[0]};")
             self.emit(1, f"public ${FIELDS[1]};")
-            self.emit(1, f"function __construct($a, $b) {{ $this->{FIELDS[0]} = $a; $this->{FIELDS[1]} = $b; }}")
+            if "rec-methods" in prog.features:
+                # (a property initialiser `public $fc = 5;` is lowered by the PHP frontend to an assignment to a local
+                # variable $fc, not to a field write: the PHP rendering initialises the field in the constructor)
+                self.emit(1, "public static $made = 0;")
+                self.emit(1, "public $fc;")
+                self.emit(1, f"function __construct($a, $b) {{ $this->{FIELDS[0]} = $a; $this->{FIELDS[1]} = $b; $this->fc = 5; }}")
+            else:
+                self.emit(1, f"function __construct($a, $b) {{ $this->{FIELDS[0]} = $a; $this->{FIELDS[1]} = $b; }}")
+            if "rec-methods" in prog.features:
+                self.emit(1, f"function total() {{ return (($this->{FIELDS[0]} + $this->{FIELDS[1]}) + $this->fc); }}")
+                self.emit(1, "function selfarea() { return area($this); }")
             self.emit(0, "}")
+            if "rec-methods" in prog.features:
+                self.emit(0, f"function area($r) {{ return ($r->{FIELDS[0]} * 2); }}")
         for name, params, body in prog.funcs:
             self.types = {p: INT for p in params}
             self.emit(0, f"function {name}({', '.join('$' + p for p in params)}) {{")
